@@ -806,6 +806,10 @@ pub fn expect(pre: &Obs, a: &Action, names: &Names, ghost: &Ghost, lenient: bool
                     if d.nfts.iter().any(|n| l.goods.nfts.contains(n)) {
                         reasons.push(Reason::DupNft);
                     }
+                    // an amount that does not fit 128 bits cannot be recorded: the deposit must be refused
+                    if d.fung.iter().any(|(k, v)| l.goods.get(k).checked_add(*v).is_none()) {
+                        reasons.push(Reason::BadDeposit);
+                    }
                     let sum = l.goods.plus(&d);
                     if sum.count() > MAX_ASSETS {
                         reasons.push(Reason::Over25);
@@ -910,6 +914,9 @@ pub fn expect(pre: &Obs, a: &Action, names: &Names, ghost: &Ghost, lenient: bool
                     let d = dep.assets();
                     if d.nfts.iter().any(|n| b.funds.nfts.contains(n)) {
                         reasons.push(Reason::DupNft);
+                    }
+                    if d.fung.iter().any(|(k, v)| b.funds.get(k).checked_add(*v).is_none()) {
+                        reasons.push(Reason::BadDeposit);
                     }
                     let sum = b.funds.plus(&d);
                     if sum.count() > MAX_ASSETS {
